@@ -239,3 +239,195 @@ def check_exact(ck, rule: str, fi: FuncInfo, expr: ast.AST, is_source, allowed: 
               "%s; chain: %s%s" % (what, " <- ".join(map(repr, ch)), ("; not value-preserving: " + ", ".join(map(repr, bad))) if bad else ""),
               construct="%s via %s" % (q.unparse(expr), " <- ".join(s_.op for s_ in ch)))
     return n
+
+
+# ---------------------------------------------------------------------------
+# local aliases, named booleans, finite-domain path evaluation (robustness against routine refactorings)
+
+
+def _bindings(fn: ast.AST, name: str) -> int:
+    """Number of binding sites of local ``name`` in fn (assignments of any kind, for/with targets, except-as, walrus)."""
+    k = 0
+    for n in q.walk_body(fn):
+        if isinstance(n, (ast.Assign, ast.AugAssign, ast.AnnAssign, ast.For, ast.AsyncFor, ast.With, ast.AsyncWith, ast.NamedExpr, ast.ExceptHandler, ast.Delete, ast.Import, ast.ImportFrom)):
+            if isinstance(n, ast.AnnAssign) and n.value is None:
+                continue
+            if isinstance(n, (ast.For, ast.AsyncFor)):
+                if name in q.names_in(n.target):
+                    k += 1
+                continue
+            if isinstance(n, (ast.With, ast.AsyncWith)):
+                if any(it.optional_vars is not None and name in q.names_in(it.optional_vars) for it in n.items):
+                    k += 1
+                continue
+            if isinstance(n, ast.ExceptHandler):
+                if n.name == name:
+                    k += 1
+                continue
+            if isinstance(n, ast.NamedExpr):
+                if isinstance(n.target, ast.Name) and n.target.id == name:
+                    k += 1
+                continue
+            if name in {p for p in q.assigned_paths(n) if "." not in p and not p.endswith("[]")}:
+                # assigned_paths walks nested statements too; count only the statement's own targets
+                tg = n.targets if isinstance(n, ast.Assign) else ([n.target] if isinstance(n, (ast.AugAssign, ast.AnnAssign)) else getattr(n, "targets", []))
+                if any(name in q.names_in(t) and not isinstance(t, (ast.Attribute, ast.Subscript)) for t in tg):
+                    k += 1
+    return k
+
+
+def unique_def(fi: FuncInfo, name: str) -> Optional[ast.AST]:
+    """Value expression of the only binding ``name = <expr>`` of a local that is not a parameter; None otherwise."""
+    if name in fi.params():
+        return None
+    if _bindings(fi.node, name) != 1:
+        return None
+    for n in q.walk_body(fi.node):
+        if isinstance(n, ast.Assign) and len(n.targets) == 1 and isinstance(n.targets[0], ast.Name) and n.targets[0].id == name:
+            return n.value
+        if isinstance(n, ast.AnnAssign) and isinstance(n.target, ast.Name) and n.target.id == name and n.value is not None:
+            return n.value
+    return None
+
+
+def resolve_local(fi: FuncInfo, e: ast.AST, depth: int = 6) -> ast.AST:
+    while isinstance(e, ast.Name) and depth > 0:
+        d = unique_def(fi, e.id)
+        if d is None:
+            return e
+        e = d
+        depth -= 1
+    return e
+
+
+def expand_locals(fi: FuncInfo, e: ast.AST, keep: Iterable[str] = (), depth: int = 6) -> ast.AST:
+    """Copy of ``e`` with every local that has a unique simple definition replaced by that definition (recursively)."""
+    import copy
+
+    keep = set(keep)
+
+    def go(x, d):
+        class T(ast.NodeTransformer):
+            def visit_Name(self, nm):
+                if not isinstance(nm.ctx, ast.Load) or nm.id in keep or d <= 0:
+                    return nm
+                df = unique_def(fi, nm.id)
+                if df is None:
+                    return nm
+                return go(copy.deepcopy(df), d - 1)
+
+            def visit_Lambda(self, node):
+                return node
+
+        return T().visit(x)
+
+    return go(copy.deepcopy(e), depth)
+
+
+def expanded_facts(fi: FuncInfo, facts) -> Set[Tuple[str, bool]]:
+    """Branch facts plus what they imply through named booleans: a fact on a local with a unique definition E is a fact
+    on E; a true conjunction makes every conjunct true, a false disjunction makes every disjunct false."""
+    from .cfg import canon_fact
+
+    out = set(facts)
+    work = list(facts)
+    seen = set()
+    while work:
+        t, pol = work.pop()
+        if (t, pol) in seen or t.startswith("@"):
+            continue
+        seen.add((t, pol))
+        try:
+            e = ast.parse(t, mode="eval").body
+        except SyntaxError:
+            continue
+        new = []
+        if isinstance(e, ast.Name):
+            d = unique_def(fi, e.id)
+            if d is not None:
+                new.append(canon_fact(d, pol))
+        if isinstance(e, ast.BoolOp):
+            if isinstance(e.op, ast.And) and pol:
+                new.extend(canon_fact(v, True) for v in e.values)
+            if isinstance(e.op, ast.Or) and not pol:
+                new.extend(canon_fact(v, False) for v in e.values)
+        if isinstance(e, ast.UnaryOp) and isinstance(e.op, ast.Not):
+            new.append(canon_fact(e.operand, not pol))
+        for f in new:
+            if f not in out:
+                out.add(f)
+            work.append(f)
+    return out
+
+
+def concrete_paths(fi: FuncInfo, init_env: Dict[str, object], event: Callable, subst: Optional[Callable[[ast.AST], ast.AST]] = None, follow_exc: bool = False,
+                   cfg=None) -> Set[Tuple[str, Tuple[str, ...]]]:
+    """Finite-domain evaluation of a function on its CFG for ONE concrete environment: assignments of foldable expressions
+    to simple locals update the environment (named booleans, aliases), branch conditions that fold prune the other edge,
+    everything else forks.  ``event(node)`` names an event (or None); returns {(exit kind, event sequence)} over all
+    feasible paths ('return' / 'raise')."""
+    cfg = cfg or fi.cfg
+    sub = subst or (lambda e: e)
+
+    def fold_(e, env):
+        return _hashable(q.fold(sub(e), env))
+
+    raised = set()
+
+    def transfer(n, val):
+        env_t, trace = val
+        ev = event(n)
+        if ev is not None:
+            trace = trace + (ev,)
+        if n.kind == "stmt" and isinstance(n.ast, ast.Raise):
+            raised.add(("raise", trace))
+        if n.kind == "stmt" and isinstance(n.ast, (ast.Assign, ast.AnnAssign, ast.AugAssign)):
+            env = dict(env_t)
+            st = n.ast
+            tg = st.targets if isinstance(st, ast.Assign) else [st.target]
+            changed = False
+            for t in tg:
+                for nm in q.names_in(t) if not isinstance(t, (ast.Attribute, ast.Subscript)) else ():
+                    if isinstance(st, (ast.Assign, ast.AnnAssign)) and isinstance(t, ast.Name) and st.value is not None:
+                        try:
+                            v = fold_(st.value, env)
+                            hash(v)
+                            env[nm] = v
+                        except Exception:
+                            env.pop(nm, None)
+                    else:
+                        env.pop(nm, None)
+                    changed = True
+            if changed:
+                env_t = tuple(sorted(env.items(), key=lambda kv: kv[0]))
+        elif n.kind == "for":
+            env = dict(env_t)
+            for nm in q.names_in(n.ast.target):
+                env.pop(nm, None)
+            env_t = tuple(sorted(env.items(), key=lambda kv: kv[0]))
+        return (env_t, trace)
+
+    def edge(n, kind, val):
+        if n.kind == "test" and kind in ("true", "false"):
+            try:
+                truth = bool(q.fold(sub(n.ast), dict(val[0])))
+            except Exception:
+                return val
+            if truth != (kind == "true"):
+                return None
+        return val
+
+    init = (tuple(sorted(_hashable_env(init_env).items(), key=lambda kv: kv[0])), ())
+    seen = explore(cfg, init, transfer, lambda t: False, edge_transfer=edge, follow_exc=follow_exc, exc_effect=False)
+    out = set()
+    for _f, (env_t, trace) in seen.get(cfg.exit.id, ()):
+        out.add(("return", trace))
+    if follow_exc:
+        for _f, (env_t, trace) in seen.get(cfg.rexit.id, ()):
+            out.add(("raise", trace))
+    out |= raised
+    return out
+
+
+def _hashable_env(env):
+    return {k: _hashable(v) for k, v in env.items()}
